@@ -77,7 +77,11 @@
 //     scalar arguments of a directly deferred call must be constants;
 //   - "out" lists local variables (typically pointers the function mutates
 //     through, `rec.Queries++`) whose final value is returned after the
-//     declared results; they start as their zero value.
+//     declared results; they start as their zero value;
+//   - "range_body" translates, instead of the whole function, the body of its
+//     first `for k, v := range …` statement as a function of the loop
+//     variables (one iteration; `continue` ends it) — the way to state the
+//     per-element rule of a loop over a map, whose order is unspecified.
 //
 // Anything else is a translation error: the generated definition is replaced
 // by a marker that makes the Tie theorem fail, i.e. a broken obligation.
@@ -127,6 +131,8 @@ type TrFunc struct {
 	Pure []string `json:"pure,omitempty"`
 	// Out lists local variables whose final value is returned as well.
 	Out []string `json:"out,omitempty"`
+	// RangeBody translates the body of the first range statement only.
+	RangeBody bool `json:"range_body,omitempty"`
 }
 
 type trSpecFile struct {
@@ -1548,6 +1554,9 @@ func (c *fctx) stmts(list []ast.Stmt) string {
 				return "«step»(.brk " + c.stateTuple(c.loop.state) + ")"
 			}
 		}
+		if c.loop == nil && c.spec.RangeBody && x.Label == nil && x.Tok == token.CONTINUE {
+			return c.stmts(nil)
+		}
 		fail("branch statement %s", x.Tok)
 	case *ast.BlockStmt:
 		return c.stmts(append(append([]ast.Stmt{}, x.List...), rest...))
@@ -2079,7 +2088,26 @@ func (t *translator) translate(sp TrFunc) (fo *funcOut) {
 	if c.trace {
 		pre += "let tr : List (String × List String) := []\n"
 	}
-	body := pre + c.stmts(fd.Body.List)
+	top := fd.Body.List
+	if sp.RangeBody {
+		var rs *ast.RangeStmt
+		ast.Inspect(fd.Body, func(n ast.Node) bool {
+			if r, ok := n.(*ast.RangeStmt); ok && rs == nil {
+				rs = r
+			}
+			return rs == nil
+		})
+		if rs == nil || rs.Tok != token.DEFINE {
+			fail("range_body: no `for … := range` statement")
+		}
+		for _, e := range []ast.Expr{rs.Key, rs.Value} {
+			if id, ok := e.(*ast.Ident); ok && id.Name != "_" && t.leanType(p.info.Defs[id].Type()) != "" {
+				params = append(params, fmt.Sprintf("(%s : %s)", leanIdent(id.Name), t.leanType(p.info.Defs[id].Type())))
+			}
+		}
+		top = rs.Body.List
+	}
+	body := pre + c.stmts(top)
 	rt := "Unit"
 	if len(resTypes) == 1 {
 		rt = resTypes[0]
